@@ -2,7 +2,7 @@
    CalculateThreshold is characterised over the real numbers (Flocq's B2R, round), shown monotone in
    the ratio over ALL non-NaN doubles (infinities included), within [0, 2^64-1] and free of unsigned wrap;
    the trace-id side (CalculateThresholdFromBuffer) is monotone in the first eight id bytes.
-   Depends on Ratio.v only.  Axioms: those of Coq's real numbers, through Flocq. *)
+   Depends on Ratio.v only.  Print Assumptions shows the standard-library facts about real numbers that Flocq uses. *)
 From Coq Require Import ZArith Reals Lia Lra Bool List.
 From Flocq Require Import Core.Core.
 From V Require Import C12.Ratio.
